@@ -27,7 +27,9 @@ RESERVED = {
     'index': 7,
     'description': 'd',
 }
-SHADOW_KIND = 'undeclared-input-shadows-reserved-param'
+SHADOW_KIND = 'undeclared-input-shadows-reserved-param'      # fixed by /repo f99833f3 (kept as a regression)
+RPC_KIND = 'undeclared-input-clashes-with-rpc-start-keyword'  # still open
+LINK_KEYS = ('root_execution_id', 'task_execution_id', 'index', 'namespace')
 RSTRIP_SIG = {'kind': 'rstrip-charset-workbook-name', 'requires': 'definition validation skipped'}
 RPC_KEYWORDS = ('wf_identifier', 'wf_namespace', 'wf_ex_id', 'wf_input', 'description', 'async_')
 
@@ -249,6 +251,9 @@ def real_schedule(c):
                 return {'err': 'KeyError'}
             except TypeError:
                 return {'err': 'TypeError'}
+            except exc.InputException:
+                # an undeclared input key named like a parameter linking the child to its parent
+                return {'err': 'InputException'}
             except exc.MistralException as e:
                 # rpc/base.py wrap_messaging_exception turns the TypeError of the keyword clash into this
                 if str(e).startswith('TypeError'):
@@ -280,7 +285,10 @@ def check_schedule(ctx, c):
     if 'namespace' not in c['parentParams']:
         return
     hits = []
-    if 'err' in io:
+    if io.get('err') == 'InputException' and any(k in LINK_KEYS for k in und):
+        # refused with the declared error: the task fails, nothing is started and nothing silently dropped
+        ctx.count(STREAM_S, 'refused-link-key')
+    elif 'err' in io:
         hits.append(('call-failed', io['err']))
     else:
         for k, v in c['input'].items():
@@ -304,12 +312,13 @@ def check_schedule(ctx, c):
         keys = [k for k in cause.get(kind, []) if k in shadow]
         if keys:
             for k in keys:
+                sig = {'kind': RPC_KIND if kind == 'call-failed' else SHADOW_KIND, 'key': k}
                 ctx.count(STREAM_S, 'shadow:' + k)
-                if not _first(ctx, {'kind': SHADOW_KIND, 'key': k}):
+                if not _first(ctx, sig):
                     continue
-                ctx.violation('undeclared input key %r overwrites the reserved execution parameter of the same name '
+                ctx.violation('undeclared input key %r collides with the engine\'s own parameter of the same name '
                               '(WorkflowAction.schedule): %s %r' % (k, kind, what),
-                              {'kind': 'schedule', 'case': c, 'got': io}, {'kind': SHADOW_KIND, 'key': k})
+                              {'kind': 'schedule', 'case': c, 'got': io}, sig)
         else:
             ctx.violation('WorkflowAction.schedule: %s %r' % (kind, what),
                           {'kind': 'schedule', 'case': c, 'got': io}, {'kind': 'schedule-' + kind})
@@ -874,7 +883,7 @@ def classify(case, kind, det, all_kinds=()):
             if k in RESERVED and (kind in SHADOW_EFFECTS[k] or '%s:%s' % (kind, det.get('key')) in SHADOW_EFFECTS[k]):
                 if k == 'description' and not case['rpc']:
                     continue
-                return {'kind': SHADOW_KIND, 'key': k}
+                return {'kind': RPC_KIND if k == 'description' else SHADOW_KIND, 'key': k}
     if kind == 'wrong-definition' and case.get('skip_validation') and any('.' in n for n in case['names'][:-1]):
         return dict(RSTRIP_SIG)
     if case['rpc'] and 'item-started-twice' in all_kinds and kind in DUP_ITEM_EFFECTS and \
